@@ -85,6 +85,31 @@ def r2_eq_hash(ctx, res):
     res.inst(key, core.loc(de.node), 'compares _ENTITY_TYPE and _id')
     if _fields(de.methods['__eq__'], de) != {'_ENTITY_TYPE', '_id'} or _fields(de.methods['__hash__'], de) != {'_ENTITY_TYPE', '_id'}:
         res.find(key, core.loc(de.node), '_DatabaseEntity no longer compares and hashes by (entity type, rowid)')
+    # no subclass of _DatabaseEntity weakens that: every __eq__ on the way up either delegates to the base comparison or itself
+    # requires equal rowids on every path that can answer True ("different stored entities are unequal")
+    from ..speccheck import view
+    for cname in CLASSES:
+        cls = core.classes[cname]
+        mro = ctx.repo.mro(cls)
+        if de not in mro:
+            continue
+        for c in mro:
+            if c is de or '__eq__' not in c.methods:
+                continue
+            v = view(ctx, '_core', f'{c.name}.__eq__')
+            key = f'entity-eq-requires-rowid:{c.name}'
+            res.inst(key, core.loc(c.methods['__eq__'].node), f'{[r[1][:50] for r in v.rows if r[0] == "return"]}')
+            for k, t, g, cx, e in v.rows:
+                if k != 'return':
+                    continue
+                flat = t.replace(' ', '')
+                if t in ('NotImplemented', 'False') or 'super().__eq__(other)' in flat or '_DatabaseEntity.__eq__(self,other)' in flat:
+                    continue
+                conj = [x.strip() for x in t.split(' and ')]
+                if 'self._id == other._id' in conj or 'other._id == self._id' in conj or any('self._id == other._id' in x for x in g):
+                    continue
+                res.find(key, v.loc(e), f'{c.name}.__eq__ can answer `{t[:90]}`' + (f' when {sorted(g)}' if g else '') +
+                         ' without comparing rowids: two different stored entities (two synsets of one lexicon sharing an ILI) are equal')
     # every concrete entity class has its own entity type
     types = {}
     for cname in ('Lexicon', 'Word', 'Sense', 'Synset'):
